@@ -1025,6 +1025,8 @@ class Pyramid(object):
 
         # Start dispatching tiles
 
+        failed = False
+
         with progress_bar(total=total, show=cli_progress) as progress:
             while True:
                 # Did anybody finish a tile?
@@ -1033,6 +1035,13 @@ class Pyramid(object):
                 except (OSError, ValueError, Empty):
                     # OSError or ValueError => queue closed. This signal seems not to
                     # cross multiprocess lines, though.
+                    #
+                    # If a worker has died (say, because the callback raised
+                    # an exception), the tile that it was processing will
+                    # never be reported as done and we would wait forever.
+                    if any(w.exitcode for w in workers):
+                        failed = True
+                        break
                     continue
 
                 progress.update(1)
@@ -1062,8 +1071,24 @@ class Pyramid(object):
         ready_queue.join_thread()
         done_event.set()
 
+        if failed:
+            # Nobody is listening to `done_queue` anymore, so the surviving
+            # workers must not be left to fill it up.
+            for w in workers:
+                w.terminate()
+
         for w in workers:
             w.join()
+
+        if failed:
+            raise Exception(
+                "a worker process failed during the parallel walk; its error "
+                "message should have been printed above"
+            )
+
+        from .par_util import check_workers_succeeded
+
+        check_workers_succeeded(workers, "the parallel walk")
 
     def visit_leaves(
         self,
@@ -1195,6 +1220,10 @@ class Pyramid(object):
 
         for w in workers:
             w.join()
+
+        from .par_util import check_workers_succeeded
+
+        check_workers_succeeded(workers, "the parallel leaf visit")
 
 
 class PyramidReductionIterator(object):
